@@ -54,7 +54,7 @@ def run(pid, tier, seed, replay, module, driver_args_quick, driver_args_thorough
     if scenarios and not replay:
         # (trace spec, projections): the TLC-enumerated dispute scenarios, executed on real chains, through the same spec
         import scen
-        n2, c2 = scen.run(pid, scenarios[0], scenarios[1], tier, seed)
+        n2, c2 = scen.run(pid, scenarios[0], scenarios[1], tier, seed, extra=list(scenarios[2]) if len(scenarios) > 2 else [])
         nnew += n2
         cov.update(c2)
     vf.write_evidence(pid, tier, seed, level, cov, time.time() - t0, nnew, assumptions)
